@@ -532,7 +532,8 @@ class _ConnectionsBackend(_HitenBaseBackend):
                 dv = float(np.linalg.norm(vu - vs))
                 if dv <= dv_tol:
                     kind = "ballistic" if dv <= bal_tol else "impulsive"
-                    pt = (float(pu[i, 0]), float(pu[i, 1]))
+                    # No local segments to refine on: the closest points are the paired nodes themselves.
+                    pt = (0.5 * float(pu[i, 0] + ps[j, 0]), 0.5 * float(pu[i, 1] + ps[j, 1]))
                     traj_idx_u = int(traj_indices_u[i]) if traj_indices_u is not None else 0
                     traj_idx_s = int(traj_indices_s[j]) if traj_indices_s is not None else 0
                     results.append(_ConnectionResult(kind=kind, delta_v=dv, point2d=pt, state_u=Xu[i].copy(), state_s=Xs[j].copy(), index_u=int(i), index_s=int(j), trajectory_index_u=traj_idx_u, trajectory_index_s=traj_idx_s))
